@@ -108,6 +108,24 @@ def scriptOf : Kind → Script
   | .lookup3 => { pre := [.look false (.stop .invalid), .taint (.stop .empty)],
                   uses := false, body := [.getInfo], defer := .none }
 
+/-! ### the use-counting entry points outside `handleRequest`: `Core.sealInitCommon` (sys/seal) and `Core.StepDown`
+
+After the use step (`UseToken`; `spent` = the token's count reached "revocation pending") they check the policy
+(`RootPrivsRequired`) and revoke a spent token SYNCHRONOUSLY (`expiration.Revoke` of its revocation lease) — on the
+allowed path (before sealing / stepping down) and, since the repair of finding F51, on the denied path as well. -/
+
+structure SealTail where
+  proceeds : Bool    -- the core seals / steps down
+  revoked : Bool     -- the spent token (and with it its leases) was revoked before returning
+deriving DecidableEq, Repr
+
+def sealTail (spent allowed : Bool) : SealTail :=
+  { proceeds := allowed, revoked := spent }
+
+/-- NOT the code (finding F51, repaired): the denied branch returned before the revocation -/
+def sealTailDeniedReturnsEarly (spent allowed : Bool) : SealTail :=
+  { proceeds := allowed, revoked := spent && allowed }
+
 /-- the token is the client token of the request (no synchronous `revokeOrphan` by the request itself) -/
 def firstParty (k : Kind) : Bool := (scriptOf k).defer != .sync
 
